@@ -269,9 +269,9 @@ pub fn random_config(rng: &mut Rng, custom_scalars: &[String], layouts: bool, de
     let mut c = GenConfig::basic();
     c.mode = *rng.pick(&["with-loader-ts-5.0", "with-loader-ts-4.0", "standalone-ts-4.0"]);
     if layouts {
-        c.schema_output = Some(rng.s(&["./generated/schema.d.ts", "../gen/types/schema.d.ts", "./schema.d.ts", "./src/a/b/schema.d.ts", "../schema.d.ts", "./generated/schema.generated.d.ts", "./src/graphql.schema.ts", "../gen/api.v2.d.mts", "./gen.d/schema.cts", "./generated/schema.d.d.ts"]).to_string());
+        c.schema_output = Some(rng.s(&["./generated/schema.d.ts", "../gen/types/schema.d.ts", "./schema.d.ts", "./src/a/b/schema.d.ts", "../schema.d.ts", "./generated/schema.generated.d.ts", "./src/graphql.schema.ts", "../gen/api.v2.d.mts", "./gen.d/schema.cts", "./generated/schema.d.d.ts", "./generated/sub/schema.d.ts", "./gen/sub/dir/schema.d.ts"]).to_string());
         if rng.coin() {
-            c.resolvers_output = Some(rng.s(&["./generated/resolvers.d.ts", "../gen/resolvers.d.ts", "./src/resolvers.d.ts", "./src/app.resolvers.d.ts", "./generated/resolvers.mts"]).to_string());
+            c.resolvers_output = Some(rng.s(&["./generated/resolvers.d.ts", "../gen/resolvers.d.ts", "./src/resolvers.d.ts", "./src/app.resolvers.d.ts", "./generated/resolvers.mts", "./generated/sub/resolvers.d.ts"]).to_string());
         }
         if rng.coin() {
             c.server_output = Some(rng.s(&["./generated/server.ts", "../gen/server-schema.js"]).to_string());
@@ -365,14 +365,19 @@ pub fn gen_project(rng: &mut Rng, po: &ProjOpts) -> Option<Project> {
     // one layout keeps the shared fragment file in a sibling directory of the project: a `documents` glob with `..`
     let outside = po.layouts && rng.chance(1, 5);
     let doc_globs: Vec<String> = if outside { vec!["./ops/**/*.graphql".to_string(), "../outside/*.graphql".to_string()] } else { vec!["./ops/**/*.graphql".to_string(), "./shared/*.graphql".to_string()] };
-    let mut op_models: Vec<(String, ExecDoc)> = if outside {
+    // another layout gives the fragment files one and the same base name in the importing file's own directory, in its
+    // parent and in a sibling of the parent (`./frag.graphql`, `../frag.graphql`, `../../shared/frag.graphql`)
+    let same_names = po.layouts && !outside && rng.chance(1, 5);
+    let mut op_models: Vec<(String, ExecDoc)> = if same_names {
+        crate::gen_ops::split_into_files_at(&doc, rng, "app/ops/sub/main.graphql", ["app/ops/sub/frag.graphql", "app/ops/frag.graphql", "app/shared/frag.graphql"])
+    } else if outside {
         crate::gen_ops::split_into_files_at(&doc, rng, "app/ops/main.graphql", ["app/ops/frag_a.graphql", "app/ops/sub/frag_b.graphql", "outside/frag_c.graphql"])
     } else {
         split_into_files(&doc, rng).into_iter().map(|(p, d)| (format!("{root}/{p}"), d)).collect()
     };
     if rng.chance(1, 3) {
         if let Some(d2) = gen_valid_doc(rng, &ix, &OpOpts { fragments: false, max_ops: 1, ..OpOpts::standard() }) {
-            let other = *rng.pick(&["ops/other.graphql", "ops/other.graphql", "ops/oth er\\x.graphql", "ops/ö#ther.graphql"]);
+            let other = *rng.pick(&["ops/other.graphql", "ops/other.graphql", "ops/oth er\\x.graphql", "ops/ö#ther.graphql", "ops/main.other.graphql", "ops/main.v2.query.graphql", "ops/frag_a.extra.graphql"]);
             op_models.push((format!("{root}/{other}"), d2));
         }
     }
